@@ -379,6 +379,8 @@ def rule_query_live(check, cm, rule):
         for kw in c.keywords:
           if kw.arg == 'datapoints':
             sites.append((n, kw.value, 'cache-query'))
+          elif kw.arg == 'datapointsByMetric':
+            sites.append((n, kw.value, 'cache-query-bulk*'))
     if isinstance(n.ast, ast.Assign):
       for t in n.ast.targets:
         if isinstance(t, ast.Subscript) and isinstance(t.value, ast.Name) and 'datapointsByMetric' in t.value.id:
@@ -393,6 +395,12 @@ def rule_query_live(check, cm, rule):
       if n is not hit.node:
         continue
       t = hit.term(e, px)
+      if what.endswith('*'):
+        # the whole mapping handed to dict(datapointsByMetric=...): judged only when it is built in one expression
+        if not (isinstance(t, tuple) and t[0] == 'dictcomp'):
+          continue
+        t = t[2]
+        what = what[:-1]
       key = (what, t)
       if key in judged:
         continue
